@@ -39,6 +39,11 @@ type c17Case struct {
 	// changed between calls (lazy dial, fail-over); each entry names the target of one call: "inproc" | "grpc".
 	// Interceptors are handed the *grpc.ClientConn underlying the call being made, nil if there is none.
 	Switch []string `json:",omitempty"`
+	// SwitchInner: in switch mode, how many pass-through grpchan layers sit *below* the user-defined wrapper
+	// (between it and the connection)
+	SwitchInner int `json:",omitempty"`
+	// ViaOld: every other layer is made with grpchan.InterceptChannel, the older name of InterceptClientConn
+	ViaOld bool `json:",omitempty"`
 }
 
 type c17SwitchConn struct {
@@ -75,7 +80,20 @@ func c17Switch(c c17Case) *Outcome {
 	grp := newCarrier(cGRPC, newServiceDesc(), svc, carrierOpts{})
 	defer grp.Close()
 	realCC, _ := grp.Conn.(*grpc.ClientConn)
-	sw := &c17SwitchConn{cur: inp.Conn}
+	passU := func(ctx context.Context, method string, req, reply interface{}, cc *grpc.ClientConn, invoker grpc.UnaryInvoker, opts ...grpc.CallOption) error {
+		return invoker(ctx, method, req, reply, cc, opts...)
+	}
+	passS := func(ctx context.Context, desc *grpc.StreamDesc, cc *grpc.ClientConn, method string, streamer grpc.Streamer, opts ...grpc.CallOption) (grpc.ClientStream, error) {
+		return streamer(ctx, desc, cc, method, opts...)
+	}
+	inner := func(base grpc.ClientConnInterface) grpc.ClientConnInterface {
+		for i := 0; i < c.SwitchInner; i++ {
+			base = grpchan.InterceptClientConn(base, passU, passS)
+		}
+		return base
+	}
+	inpConn, grpConn := inner(inp.Conn), inner(grp.Conn)
+	sw := &c17SwitchConn{cur: inpConn}
 	var mu sync.Mutex
 	var seen []string
 	var ch grpc.ClientConnInterface = sw
@@ -103,9 +121,9 @@ func c17Switch(c c17Case) *Outcome {
 		sw.mu.Lock()
 		want := "nil"
 		if target == "grpc" {
-			sw.cur, want = grp.Conn, "real"
+			sw.cur, want = grpConn, "real"
 		} else {
-			sw.cur = inp.Conn
+			sw.cur = inpConn
 		}
 		sw.mu.Unlock()
 		mu.Lock()
@@ -289,7 +307,12 @@ func propC17Chain(c c17Case) *Outcome {
 	for i, l := range c.Layers {
 		id := fmt.Sprintf("L%d", i)
 		prev := ch
-		ch = grpchan.InterceptClientConn(prev, mkUnary(id, l.Unary), mkStream(id, l.Stream))
+		if c.ViaOld && i%2 == 1 {
+			// the older name of the same constructor
+			ch = grpchan.InterceptChannel(prev, mkUnary(id, l.Unary), mkStream(id, l.Stream))
+		} else {
+			ch = grpchan.InterceptClientConn(prev, mkUnary(id, l.Unary), mkStream(id, l.Stream))
+		}
 		if l.Unary == "" && l.Stream == "" {
 			if ch != prev {
 				return o.failf("InterceptClientConn(ch, nil, nil) returned a different channel")
@@ -482,11 +505,13 @@ func genC17(t *rapid.T) c17Case {
 		c := c17Case{Base: "switch", Stream: rapid.Bool().Draw(t, "stream")}
 		c.Layers = make([]c17Layer, rapid.IntRange(1, 3).Draw(t, "switchdepth"))
 		c.Switch = rapid.SliceOfN(rapid.SampledFrom([]string{"inproc", "grpc"}), 2, 4).Draw(t, "targets")
+		c.SwitchInner = rapid.IntRange(0, 2).Draw(t, "switchinner")
 		return c
 	}
 	c := c17Case{Base: rapid.SampledFrom([]string{"fake", "fake", "inproc", "http", "grpc", "grpc"}).Draw(t, "base"), Stream: rapid.Bool().Draw(t, "stream"), NOpts: rapid.IntRange(0, 2).Draw(t, "nopts")}
 	n := rapid.OneOf(rapid.IntRange(0, 4), rapid.IntRange(0, 8)).Draw(t, "depth")
 	c.Sibling = rapid.IntRange(0, 2).Draw(t, "sibling") == 0
+	c.ViaOld = rapid.Bool().Draw(t, "viaold")
 	c.DoneCtx = c.Base == "fake" && rapid.IntRange(0, 3).Draw(t, "donectx") == 0
 	ub := []string{"", "pass", "pass", "pass", "sc-err", "sc-ctxerr", "sc-ok", "add-opt", "drop-opts", "rw-method", "twice", "rw-req"}
 	sb := []string{"", "pass", "pass", "pass", "sc-err", "sc-ctxerr", "add-opt", "drop-opts", "rw-method"}
